@@ -132,6 +132,16 @@ def st_run_spec(draw, algo, source=None, K=None, conf=None, allow_Kgtm=True, m=N
     spec["source"] = source or draw(st.sampled_from(srcs))
     if spec["source"] == "stub":
         spec["stub"] = draw(st_stub(mm))
+        if ct == "ell" and algo in ("PaVeBaGP", "PaVeBaPartialGP"):
+            # positively homogeneous as well: the whole problem (values, eps, noise std, posterior std) scaled to 1e-4, where
+            # posterior covariances have entries around 1e-8 and below
+            unit = draw(st.sampled_from([1.0, 1.0, 1e-4, 1e-4]))
+            if unit != 1.0:
+                spec["unit"] = unit
+                spec["Y"] = [[float(y * unit) for y in row] for row in spec["Y"]]
+                spec["eps"] = float(spec["eps"] * unit)
+                spec["noise_var"] = float(spec["noise_var"] * unit * unit)
+                spec["stub"]["cov_scale"] = float(spec["stub"]["cov_scale"] * unit * unit)
         if ct == "rect":
             # the algorithms' decisions depend on differences of objective values only: sometimes place the whole
             # problem far from the origin (box comparisons are pure floating point, so the 1e-11 band still applies)
